@@ -3,6 +3,7 @@ package h2kit
 import (
 	"bufio"
 	"crypto/tls"
+	"errors"
 	"fmt"
 	"net"
 	"net/url"
@@ -45,6 +46,9 @@ type Options struct {
 	// NoALPN: the server completes the TLS handshake without selecting an application
 	// protocol (an origin that knows nothing of ALPN).
 	NoALPN bool
+	// NoHandshake: the server accepts the TCP connection and then stays silent: the TLS
+	// handshake never completes. The session has no Server endpoint.
+	NoHandshake bool
 }
 
 // Session is one h2.Config.Proxy call between a frame-level client (in-memory)
@@ -64,6 +68,10 @@ type Session struct {
 	proxyDone chan struct{}
 	proxyErr  error
 }
+
+// ErrProxyReturned is what Open reports when Config.Proxy returned before it had
+// connected upstream.
+var ErrProxyReturned = errors.New("Proxy returned before connecting upstream")
 
 // Open starts a TLS server on 127.0.0.1:0, starts Config.Proxy against it with
 // an in-memory client connection and waits (bounded) for the relay's upstream
@@ -119,13 +127,17 @@ func Open(o Options) (*Session, error) {
 		s.tcp = a.c.(*net.TCPConn)
 	case <-s.proxyDone:
 		s.Teardown(o.Bound)
-		return nil, fmt.Errorf("Proxy returned before connecting upstream: %v", s.proxyErr)
+		return nil, fmt.Errorf("%w: %v", ErrProxyReturned, s.proxyErr)
 	case <-time.After(o.Bound):
 		s.Teardown(o.Bound)
 		return nil, fmt.Errorf("relay did not connect upstream within %v", o.Bound)
 	}
 	if o.ServerRcvBuf > 0 {
 		s.tcp.SetReadBuffer(o.ServerRcvBuf)
+	}
+	if o.NoHandshake {
+		s.Client.Start()
+		return s, nil
 	}
 	protos := []string{"h2"}
 	if o.NoALPN {
